@@ -175,3 +175,47 @@ def all_systems(si_, ti, qi, di):
     g = compute_conversion_factor(tgt, us, dim)
     v = UnitValue(2.0, Units(us, dim)).convert(tgt).value
     return abs(math.log10(f) - want) <= 1e-9 and abs(math.log10(g) + want) <= 1e-9 and abs(math.log10(v / 2.0) - want) <= 1e-9
+
+
+_FIELDS = ("space", "time", "quantity")
+
+
+def mutated_system(ia, ib, fld, how, di):
+    """A UnitsSystem object is mutable. One that has already been USED in conversions (as target and as the system of a source
+    value) and is then modified - by attribute (how 0), by item (how 1), on a copy() taken after the first use (how 2), or through a
+    Units / UnitValue that carries it (how 3) - must convert exactly like a freshly built system with the same content."""
+    names = sorted(SYS)
+    a, b = SYS[names[ia]], SYS[names[ib]]
+    f = _FIELDS[fld]
+    d = _DV[di]
+    dim = UnitsDimensions(*d)
+    us = UnitsSystem(a["space"], a["time"], a["quantity"])
+    probe = UnitValue(3.0, Units(SYS["G"], dim))
+    carried = UnitValue(5.0, Units(us, dim)) if how == 3 else None
+    # first use, in every role
+    probe.convert(us)
+    UnitValue(2.0, Units(us, dim)).convert(SYS["G"])
+    compute_conversion_factor(us, SYS["B"], dim)
+    compute_conversion_factor(SYS["B"], us, dim)
+    if how == 0:
+        setattr(us, f, b[f])
+    elif how == 1:
+        us[f] = b[f]
+    elif how == 2:
+        us = us.copy()
+        setattr(us, f, b[f])
+    else:
+        us = carried.units.sys
+        setattr(us, f, b[f])
+    fresh = UnitsSystem(us["space"], us["time"], us["quantity"])
+    if fresh[f] != b[f]:
+        return False
+    ok = compute_conversion_factor(us, SYS["B"], dim) == compute_conversion_factor(fresh, SYS["B"], dim)
+    ok = ok and compute_conversion_factor(SYS["B"], us, dim) == compute_conversion_factor(SYS["B"], fresh, dim)
+    ok = ok and probe.convert(us).value == probe.convert(fresh).value
+    ok = ok and UnitValue(2.0, Units(us, dim)).convert(SYS["G"]).value == UnitValue(2.0, Units(fresh, dim)).convert(SYS["G"]).value
+    r = probe.convert(us)
+    ok = ok and abs(si(r) - si(probe)) <= 1e-9 * abs(si(probe))
+    arr = UnitArray([1.0, 2.0], Units(SYS["G"], dim))
+    ok = ok and list(arr.convert(us).value) == list(arr.convert(fresh).value)
+    return ok
